@@ -435,7 +435,7 @@ def rand_initial_states(rng, m, n_agents, *, on_grid=False, off_range=True):
             vals = []
             for _ in range(n_agents):
                 u = rng.random()
-                if on_grid or u < 0.4:
+                if on_grid or u < 0.4 or len(g) < 2:
                     x = rng.choice(g)
                 elif u < 0.8 or v["kind"] == "log" or not off_range:
                     i = rng.randrange(len(g) - 1)
